@@ -71,3 +71,146 @@ Proof.
   unfold collect. destruct (nlen items =? n) eqn:E; [|discriminate].
   intros H. injection H as <-. split; [reflexivity | lia].
 Qed.
+
+(* ---------- C01 C02 C07 C08 C09: round trip, self-delimitation, truncation ---------- *)
+From Desert Require Import CodecRt RecordRt RecordChunkedSpec RecordChunked CodecRt2.
+
+Theorem roundtrip : forall f E t v st b st' s k,
+  wf_env E = true -> wf_env_rt E = true -> wf_ty E t = true -> wf_val f E t v = true ->
+  enc f E t v st = Ok (b, st') ->
+  dec a_ops f E t (mkA (b ++ s) k st) = Ok (normv f E t v, mkA s k st').
+Proof. exact (roundtrip_A rt_record_chunked). Qed.
+
+(* the same at the top-level entry points, with any larger decoder fuel, on both layers *)
+Lemma roundtrip_decodeA f f' E t v st b st' s :
+  wf_env E = true -> wf_env_rt E = true -> wf_ty E t = true -> wf_val f E t v = true ->
+  enc f E t v st = Ok (b, st') -> (f <= f')%nat ->
+  decodeA f' E t (b ++ s) st = Ok (normv f E t v, s, st').
+Proof.
+  intros HE HR Ht Hv He Hf. unfold decodeA.
+  rewrite (dec_mono_ok a_ops f f' E t _ _ _ Hf (roundtrip f E t v st b st' s [] HE HR Ht Hv He)).
+  reflexivity.
+Qed.
+
+Lemma roundtrip_decodeB f f' E t v st b st' s :
+  wf_env E = true -> wf_env_rt E = true -> wf_ty E t = true -> wf_val f E t v = true ->
+  enc f E t v st = Ok (b, st') -> (f <= f')%nat -> nlen (b ++ s) < 2 ^ 64 ->
+  decodeB f' E t (b ++ s) st = Ok (normv f E t v, nlen s, st').
+Proof.
+  intros HE HR Ht Hv He Hf Hl. apply decodeB_complete; [exact Hl|].
+  eapply roundtrip_decodeA; eassumption.
+Qed.
+
+(* every strict prefix of an encoding is rejected with an error *)
+Lemma truncated_encoding_rejected f E t v st b st' j k :
+  wf_env E = true -> wf_env_rt E = true -> wf_ty E t = true -> wf_val f E t v = true ->
+  enc f E t v st = Ok (b, st') -> j < nlen b ->
+  is_err (dec a_ops f E t (mkA (ntake j b) k st)) = true.
+Proof.
+  intros HE HR Ht Hv He Hj.
+  pose proof (roundtrip f E t v st b st' [] k HE HR Ht Hv He) as H.
+  eapply decA_truncated; eassumption.
+Qed.
+
+Lemma truncated_encoding_rejected_B f E t v st b st' j :
+  wf_env E = true -> wf_env_rt E = true -> wf_ty E t = true -> wf_val f E t v = true ->
+  enc f E t v st = Ok (b, st') -> j < nlen b -> nlen b < 2 ^ 64 ->
+  is_err (decodeB f E t (ntake j b) st) = true.
+Proof.
+  intros HE HR Ht Hv He Hj Hl.
+  pose proof (truncated_encoding_rejected f E t v st b st' j [] HE HR Ht Hv He Hj) as H.
+  destruct (dec a_ops f E t (mkA (ntake j b) [] st)) as [[? ?]|e| |] eqn:D; try discriminate.
+  assert (HA: decodeA f E t (ntake j b) st = Err e) by (unfold decodeA; rewrite D; reflexivity).
+  apply decodeB_err_iff in HA; [rewrite HA; reflexivity|].
+  rewrite nlen_ntake by lia. lia.
+Qed.
+
+(* on types without declarations there is nothing to normalise *)
+Lemma norm_fields_tuple_id nv ts : forall i vs,
+  (forall t v, nv t v = v) -> norm_fields nv (tuple_fields ts i) vs = vs.
+Proof.
+  induction ts as [|t ts IH]; intros i vs H; cbn [tuple_fields norm_fields]; [destruct vs; reflexivity|].
+  destruct vs as [|x vs]; [reflexivity|]. cbn [f_transient f_ty]. rewrite H, IH by exact H. reflexivity.
+Qed.
+
+Lemma map_id_ext {A} (f : A -> A) l : (forall x, f x = x) -> map f l = l.
+Proof. intros H. induction l as [|x l IH]; cbn; [reflexivity|]. rewrite H, IH. reflexivity. Qed.
+
+Lemma normv_nil_env : forall f t v, normv f [] t v = v.
+Proof.
+  induction f as [|f IH]; intros t v; [reflexivity|].
+  destruct t as [p|t'|r e|ts|k e|mk kt vt|wk t'| |n]; cbn [normv].
+  - destruct v; reflexivity.
+  - destruct v as [| | |tag vs]; try reflexivity.
+    destruct tag as [|[| |]]; try reflexivity. destruct vs as [|x [|? ?]]; try reflexivity.
+    rewrite IH. reflexivity.
+  - destruct v as [| | |tag vs]; try reflexivity.
+    destruct tag as [|[| |]]; try reflexivity; destruct vs as [|x [|? ?]]; try reflexivity;
+      rewrite IH; reflexivity.
+  - destruct v as [| | |tag vs]; try reflexivity. destruct tag; try reflexivity.
+    cbn [tuple_meta r_fields]. rewrite norm_fields_tuple_id by (intros; apply IH). reflexivity.
+  - destruct v as [| | |tag vs]; try reflexivity. destruct tag; try reflexivity.
+    destruct (byte_path k e); [reflexivity|]. rewrite map_id_ext by (intros; apply IH). reflexivity.
+  - destruct v as [| | |tag vs]; try reflexivity. destruct tag; try reflexivity.
+    rewrite map_id_ext by (intros; apply IH). reflexivity.
+  - apply IH.
+  - destruct v; reflexivity.
+  - destruct v as [| | |tag vs]; try reflexivity. unfold lookup_decl.
+    destruct (N.to_nat n); reflexivity.
+Qed.
+
+Theorem roundtrip_builtin : forall f t v st b st' s k,
+  wf_ty [] t = true -> wf_val f [] t v = true ->
+  enc f [] t v st = Ok (b, st') ->
+  dec a_ops f [] t (mkA (b ++ s) k st) = Ok (v, mkA s k st').
+Proof.
+  intros f t v st b st' s k Ht Hv He.
+  rewrite <- (normv_nil_env f t v) at 1.
+  apply roundtrip; try assumption; reflexivity.
+Qed.
+
+(* ---------- C09: string de-duplication ---------- *)
+Lemma dedup_first_is_plain s st :
+  str_id s st = None -> nlen st + 1 < 2 ^ 31 -> enc_dedup s st = enc_string s (st ++ [s]).
+Proof. intros H Hl. unfold enc_dedup. rewrite H. assert (nlen st + 1 <? 2 ^ 31 = true) as -> by lia. reflexivity. Qed.
+
+Lemma enc_string_bytes_table_indep s st1 st2 :
+  omap fst (enc_string s st1) = omap fst (enc_string s st2).
+Proof. unfold enc_string. destruct (nlen s <? 2 ^ 31); reflexivity. Qed.
+
+Lemma var_len_le_5 v : var_len v <= 5.
+Proof. unfold var_len. repeat (destruct (_ <? _)); lia. Qed.
+
+Lemma dedup_repeat s st id :
+  str_id s st = Some id -> id < 2 ^ 31 ->
+  enc_dedup s st = Ok (write_var_i32 (- Z.of_N id), st) /\ nlen (write_var_i32 (- Z.of_N id)) <= 5.
+Proof.
+  intros H Hl. unfold enc_dedup. rewrite H. assert (id <? 2 ^ 31 = true) as -> by lia.
+  split; [reflexivity|]. unfold write_var_i32. rewrite write_var_u32_length. apply var_len_le_5.
+Qed.
+
+Lemma str_find_new s st : forall i, str_find s st i = None -> str_find s (st ++ [s]) i = Some (i + nlen st).
+Proof.
+  induction st as [|x st IH]; intros i H; cbn [str_find app nlen] in *.
+  - rewrite bytes_eqb_refl. f_equal. lia.
+  - destruct (bytes_eqb x s); [discriminate|]. rewrite (IH (i + 1) H). f_equal. lia.
+Qed.
+
+Lemma dedup_new_id s st : str_id s st = None -> str_id s (st ++ [s]) = Some (nlen st + 1).
+Proof. unfold str_id. intros H. rewrite (str_find_new s st 1 H). f_equal. lia. Qed.
+
+Lemma dedup_unknown_id id s k st :
+  nlen st < id -> id < 2 ^ 31 ->
+  dec_dedup a_ops (mkA (write_var_i32 (- Z.of_N id) ++ s) k st) = Err (EInvalidStringId (Z.of_N id)).
+Proof.
+  intros H1 H2. unfold dec_dedup. change (d_rd a_ops) with a_reader.
+  change (2 ^ 31) with 2147483648 in H2.
+  rewrite (a_read_var_i32 k st _ (- Z.of_N id)%Z s)
+    by (apply var_i32_roundtrip_list; change (2 ^ 31)%Z with 2147483648%Z; lia).
+  cbn [bind].
+  assert ((- Z.of_N id <? 0)%Z = true) as -> by lia.
+  assert ((- Z.of_N id =? - 2 ^ 31)%Z = false) as -> by (change (2 ^ 31)%Z with 2147483648%Z; lia).
+  cbn [a_ops d_str_get a_strs]. rewrite Z.opp_involutive. unfold str_get.
+  assert ((Z.of_N id <=? 0)%Z = false) as -> by lia.
+  assert ((Z.of_N (nlen st) <? Z.of_N id)%Z = true) as -> by lia. reflexivity.
+Qed.
